@@ -39,6 +39,10 @@ func (g *Gen) newHistory(conf string) {
 	g.subjects, g.sessions = nil, nil
 	g.idxTags = map[string][]string{}
 	g.tagsUsed = []string{"t1", "t2", "t3"}
+	if g.r.Intn(3) == 0 {
+		// a client's tag that has the form of a referrers fallback tag: in a converted repository it is a tag like any other
+		g.tagsUsed = append(g.tagsUsed, "sha256-"+strings.Repeat("ab", 32))
+	}
 	g.repos = []string{"r1", "r2", "r1/sub"}
 	g.emit("NEW " + conf)
 }
@@ -70,6 +74,14 @@ func (g *Gen) confLine() string {
 		}
 		if g.r.Intn(2) == 0 {
 			parts = append(parts, "grace=3600")
+		}
+	case "rofs":
+		// collections through the memory overlay under either grace setting
+		if g.r.Intn(2) == 0 {
+			parts = append(parts, "grace=3600")
+		}
+		if g.r.Intn(3) == 0 {
+			parts = append(parts, "untagged=1")
 		}
 	case "raw":
 		for _, k := range []string{"push", "del", "bdel", "ref"} {
@@ -213,6 +225,9 @@ func (g *Gen) pushManifest(repo string) {
 	}
 	name := g.defBody(kind, toks)
 	ref := g.pick(g.tagsUsed)
+	if last := g.tagsUsed[len(g.tagsUsed)-1]; kind == "index" && strings.HasPrefix(last, "sha256-") && g.r.Intn(3) == 0 {
+		ref = last // an index under a tag of fallback form (what the conversion of legacy referrers looks for)
+	}
 	wrongRef := false
 	switch g.r.Intn(8) {
 	case 0:
@@ -260,6 +275,14 @@ func (g *Gen) pushManifest(repo string) {
 	if strings.HasPrefix(out, "201 ") {
 		if kind == "index" && !strings.Contains(ref, ":") {
 			g.idxTags[repo] = append(g.idxTags[repo], ref)
+			// a tagged index read by a client that accepts only the children's types: the registry answers with a child's blob
+			// (never with what the index says about the child: size, embedded data)
+			for _, t := range toks {
+				if t == "cdata=1" || g.r.Intn(6) == 0 {
+					g.emit(fmt.Sprintf("MGET %s %s accept=%s", repo, ref, g.pick([]string{"ocim", "ocim,dockm", "dockm"})))
+					break
+				}
+			}
 		}
 		g.manIn[repo] = append(g.manIn[repo], name)
 		stored := ct
@@ -758,8 +781,30 @@ func (g *Gen) run(n int) {
 			if g.r.Intn(2) == 0 {
 				mode += " prep=1" // leftovers put into the directory by hand between the two servers (see fsPrep)
 			}
+			// some of what the directory holds is older than the grace period when the second server opens it: an upload the
+			// overlay acknowledges is recent all the same
+			if g.r.Intn(2) == 0 {
+				for _, c := range g.blobsIn["r1"] {
+					if g.r.Intn(2) == 0 {
+						g.emit("SETTIME r1 sha256:" + c + " old")
+					}
+				}
+			}
+			// a layer nothing refers to, old when the second server opens the directory, uploaded again there and collected at once
+			reup := g.r.Intn(3) == 0
+			if reup {
+				g.emit("UPOST r1 digest=sha256:l3 body=l3")
+				g.emit("SETTIME r1 sha256:l3 old")
+			}
 			g.emit("RESTART " + mode)
 			g.sessions = nil
+			if reup {
+				g.emit(g.pick([]string{"UPOST r1 digest=sha256:l3 body=l3", "UPOST r1 mount=sha256:l3 from=r1"}))
+				if strings.HasPrefix(mode, "store=memdir") {
+					g.emit("GC r1")
+				}
+				g.emit("BHEAD r1 sha256:l3")
+			}
 			offs, recv := map[int]int{}, map[int]string{}
 			k = 8 + g.r.Intn(25)
 			for i := 0; i < k; i++ {
@@ -811,6 +856,10 @@ func (g *Gen) run(n int) {
 						g.emit(fmt.Sprintf("%s r1 sha256:%s accept=%s", g.pick([]string{"MGET", "MGET", "MHEAD"}), name, g.manMT[name]))
 					}
 					g.emit("TAGS r1")
+					// … and every tag the history uses is resolved (a tag acknowledged before the restart resolves after it)
+					for _, t := range g.tagsUsed {
+						g.emit(fmt.Sprintf("MHEAD r1 %s accept=ocim,ocii,dockm,dockl", t))
+					}
 				} else if g.r.Intn(3) == 0 {
 					g.refsStep()
 				} else {
